@@ -313,6 +313,12 @@ impl<W: WriteColor> SearchWorker<W> {
             )
         })?;
         let result = self.search_reader(path, &mut rdr).map_err(|err| {
+            // A broken pipe comes from writing the results, not from the
+            // preprocessor. Callers treat it as a request to stop quietly, so
+            // it must keep its kind.
+            if err.kind() == io::ErrorKind::BrokenPipe {
+                return err;
+            }
             io::Error::new(
                 io::ErrorKind::Other,
                 format!("preprocessor command failed: '{:?}': {}", cmd, err),
